@@ -97,7 +97,7 @@ class Reporter:
             print("KNOWN-FINDING: property=%s %s %s" % (self.pid, key, f.get("what", "")))
         replay_paths = []
         if violations:
-            rdir = os.path.join(VERIF, "evidence", "replay")
+            rdir = os.path.join(os.environ.get("VERIF_EVIDENCE_DIR") or os.path.join(VERIF, "evidence"), "replay")
             os.makedirs(rdir, exist_ok=True)
             for i, v in enumerate(violations):
                 p = os.path.join(rdir, "%s-%d.json" % (self.pid, i))
@@ -152,8 +152,9 @@ class Reporter:
             "wall_s": round(time.time() - self.t0, 2),
             "violations": len(violations),
         }
-        os.makedirs(os.path.join(VERIF, "evidence"), exist_ok=True)
-        with open(os.path.join(VERIF, "evidence", self.pid + ".json"), "w") as fh:
+        evdir = os.environ.get("VERIF_EVIDENCE_DIR") or os.path.join(VERIF, "evidence")
+        os.makedirs(evdir, exist_ok=True)
+        with open(os.path.join(evdir, self.pid + ".json"), "w") as fh:
             json.dump(ev, fh, indent=1)
         print("%s [%s]: %d rule instance(s), %d site(s) analysed, %d violation(s), %d known finding(s), %.1fs" % (
             self.pid, self.tier, len(self.rules), n_sites, len(violations), len(known_hits), time.time() - self.t0))
